@@ -136,10 +136,57 @@ def discharge(pc, goal, timeout_ms=10000):
             return "refuted", t.model(), "z3-nlsat"
     except z3.Z3Exception:
         pass
+    quants = [a for a in pc if z3.is_quantifier(a)]
+    if quants:
+        # z3 rarely answers `sat` in the presence of quantified axioms.  Look for a counter-model of the
+        # ground instantiation of the axioms at the integer terms of the query (two rounds); such a model
+        # is a *candidate* refutation (it satisfies finitely many instances of the axioms only).
+        m = _refute_by_instantiation([a for a in pc if not z3.is_quantifier(a)], quants, goal, timeout_ms)
+        if m is not None:
+            return "refuted", m, "z3-ground-instances"
+        return "undecided", None, "z3"
     r2 = _cvc5_check(s.to_smt2(), timeout_ms)
     if r2 == "unsat":
         return "discharged", None, "cvc5"
     return "undecided", None, "z3+cvc5"
+
+
+def _int_subterms(e, acc, depth=0):
+    if z3.is_quantifier(e) or depth > 40:
+        return
+    if z3.is_app(e):
+        if e.sort() == z3.IntSort() and not z3.is_int_value(e) and e.num_args() <= 1 or (z3.is_const(e) and e.sort() == z3.IntSort() and not z3.is_int_value(e)):
+            acc[e.sexpr()] = e
+        for c in e.children():
+            _int_subterms(c, acc, depth + 1)
+
+
+def _refute_by_instantiation(ground, quants, goal, timeout_ms):
+    base = list(ground) + [z3.Not(goal)]
+    insts = []
+    seen = set()
+    for _round in range(2):
+        terms = {}
+        for e in base + insts:
+            _int_subterms(e, terms)
+        if len(terms) > 80:
+            break
+        for q in quants:
+            if q.num_vars() != 1 or q.var_sort(0) != z3.IntSort():
+                continue
+            for key, t in terms.items():
+                k = (q.get_id(), key)
+                if k in seen:
+                    continue
+                seen.add(k)
+                insts.append(z3.substitute_vars(q.body(), t))
+    s = z3.Solver()
+    s.set("timeout", timeout_ms)
+    s.add(*base)
+    s.add(*insts)
+    if s.check() == z3.sat:
+        return s.model()
+    return None
 
 
 def _cvc5_check(smt2: str, timeout_ms: int):
